@@ -522,6 +522,8 @@ func ReadSizes(r *Rand, style string) func() int {
 		return func() int { return 4096 }
 	case "64k":
 		return func() int { return 65536 }
+	case "128k":
+		return func() int { return 131072 }
 	case "random":
 		return func() int {
 			switch r.Intn(5) {
